@@ -226,4 +226,177 @@ theorem groupFor_none (k : Name) : ∀ (args : List (Name × DslArg Val)) (acc :
     | param value kwds => simp only [List.foldl_cons]; exact ih acc (by simpa [groupsOf] using h)
     | group ms => simp [groupsOf] at h
 
+/-! ## the DSL: the second loop of `Mod.__init__` (`self[member]['group'] = group`) -/
+
+/-- every member of a `Group(…)` has an argument of its own (else `KeyError`: the file does not load) -/
+def GroupsOk (args : List (Name × DslArg Val)) : Prop :=
+  ∀ g ms, (g, DslArg.group ms) ∈ args → ∀ m ∈ ms, ∃ a, (m, a) ∈ args ∧ (writtenItems a).isSome = true
+
+section Groups
+variable (mkStr : Name → Val)
+
+/-- the dict after some groups were processed: `S` tells which group a name has been put into so far -/
+def upd (S : Name → Option Name) (kv : Name × Entry Val) : Name × Entry Val :=
+  (kv.1, match kv.2 with
+    | .acc items => .acc (withGroup mkStr (S kv.1) items)
+    | e => e)
+
+theorem setKey_setKey {α : Type} (k : Name) (v1 v2 : α) : ∀ (l : List (Name × α)),
+    setKey k v2 (setKey k v1 l) = setKey k v2 l := by
+  intro l
+  induction l with
+  | nil => simp [setKey]
+  | cons x l ih =>
+    by_cases hx : x.1 = k
+    · simp [setKey, hx]
+    · simp [setKey, hx, ih]
+
+theorem withGroup_set (g : Name) (og : Option Name) (items : List (Name × Val)) :
+    setKey "group" (mkStr g) (withGroup mkStr og items) = withGroup mkStr (some g) items := by
+  cases og with
+  | none => rfl
+  | some g0 => simp [withGroup, setKey_setKey]
+
+theorem lookup_map_upd (S : Name → Option Name) (m : Name) (items : List (Name × Val)) : ∀ (L : Cfg Val),
+    lookup m L = some (.acc items) →
+    lookup m (L.map (upd mkStr S)) = some (.acc (withGroup mkStr (S m) items)) := by
+  intro L
+  induction L with
+  | nil => intro h; cases h
+  | cons x L ih =>
+    intro h
+    obtain ⟨k, e⟩ := x
+    simp only [lookup] at h
+    by_cases hk : k = m
+    · subst hk
+      simp only [↓reduceIte, Option.some.injEq] at h
+      subst h
+      simp [lookup, upd]
+    · simp only [hk, ↓reduceIte] at h
+      simp only [List.map_cons, lookup, upd, hk, ↓reduceIte]
+      exact ih h
+
+theorem setKey_map_upd (S : Name → Option Name) (g m : Name) (items : List (Name × Val)) : ∀ (L : Cfg Val),
+    (L.map (·.1)).Nodup → lookup m L = some (.acc items) →
+    setKey m (Entry.acc (withGroup mkStr (some g) items)) (L.map (upd mkStr S)) =
+      L.map (upd mkStr (fun k => if k = m then some g else S k)) := by
+  intro L
+  induction L with
+  | nil => intro _ h; cases h
+  | cons x L ih =>
+    intro hnd h
+    obtain ⟨k, e⟩ := x
+    simp only [List.map_cons, List.nodup_cons] at hnd
+    simp only [lookup] at h
+    by_cases hk : k = m
+    · subst hk
+      simp only [↓reduceIte, Option.some.injEq] at h
+      subst h
+      have htail : L.map (upd mkStr S) = L.map (upd mkStr (fun k' => if k' = k then some g else S k')) := by
+        apply List.map_congr_left
+        intro kv hkv
+        have : kv.1 ≠ k := fun he => hnd.1 (he ▸ List.mem_map_of_mem hkv)
+        simp [upd, this]
+      simp only [List.map_cons, upd, setKey, ↓reduceIte, htail]
+    · simp only [hk, ↓reduceIte] at h
+      simp only [List.map_cons, upd, setKey, hk, ↓reduceIte, List.cons.injEq, true_and]
+      exact ih hnd.2 h
+
+theorem setGroup_step (S : Name → Option Name) (g m : Name) (items : List (Name × Val)) (L : Cfg Val)
+    (hnd : (L.map (·.1)).Nodup) (h : lookup m L = some (.acc items)) :
+    setGroup mkStr g (some (L.map (upd mkStr S))) m =
+      some (L.map (upd mkStr (fun k => if k = m then some g else S k))) := by
+  simp only [setGroup, lookup_map_upd mkStr S m items L h, withGroup_set, setKey_map_upd mkStr S g m items L hnd h]
+
+theorem members_fold (L : Cfg Val) (hnd : (L.map (·.1)).Nodup) (g : Name) :
+    ∀ (ms : List Name) (S : Name → Option Name), (∀ m ∈ ms, ∃ items, lookup m L = some (.acc items)) →
+      ∃ S', ms.foldl (setGroup mkStr g) (some (L.map (upd mkStr S))) = some (L.map (upd mkStr S')) ∧
+        ∀ k, S' k = if ms.contains k then some g else S k := by
+  intro ms
+  induction ms with
+  | nil => intro S _; exact ⟨S, rfl, fun k => by simp⟩
+  | cons m ms ih =>
+    intro S hm
+    obtain ⟨items, hl⟩ := hm m List.mem_cons_self
+    obtain ⟨S', h1, h2⟩ := ih (fun k => if k = m then some g else S k) (fun m' hm' => hm m' (List.mem_cons_of_mem _ hm'))
+    refine ⟨S', by simp only [List.foldl_cons, setGroup_step mkStr S g m items L hnd hl, h1], fun k => ?_⟩
+    rw [h2 k]
+    by_cases hc : ms.contains k = true <;> by_cases hk : k = m <;> simp [hc, hk, List.contains_cons]
+
+theorem groups_fold (L : Cfg Val) (hnd : (L.map (·.1)).Nodup) :
+    ∀ (gs : List (Name × List Name)) (S : Name → Option Name),
+      (∀ g ∈ gs, ∀ m ∈ g.2, ∃ items, lookup m L = some (.acc items)) →
+      ∃ S', gs.foldl (fun d g => g.2.foldl (setGroup mkStr g.1) d) (some (L.map (upd mkStr S))) = some (L.map (upd mkStr S')) ∧
+        ∀ k, S' k = gs.foldl (fun acc g => if g.2.contains k then some g.1 else acc) (S k) := by
+  intro gs
+  induction gs with
+  | nil => intro S _; exact ⟨S, rfl, fun _ => rfl⟩
+  | cons g gs ih =>
+    intro S hg
+    obtain ⟨S1, h1, h2⟩ := members_fold mkStr L hnd g.1 g.2 S (hg g List.mem_cons_self)
+    obtain ⟨S', h3, h4⟩ := ih S1 (fun g' hg' => hg g' (List.mem_cons_of_mem _ hg'))
+    refine ⟨S', by simp only [List.foldl_cons, h1, h3], fun k => ?_⟩
+    rw [h4 k, h2 k]; rfl
+
+theorem upd_none (kv : Name × Entry Val) : upd mkStr (fun _ => none) kv = kv := by
+  obtain ⟨k, e⟩ := kv
+  cases e <;> rfl
+
+end Groups
+
+theorem groupFor_groupsOf (k : Name) : ∀ (args : List (Name × DslArg Val)) (acc : Option Name),
+    (groupsOf args).foldl (fun acc g => if g.2.contains k then some g.1 else acc) acc =
+    args.foldl (fun acc kv => match kv.2 with
+      | DslArg.group ms => if ms.contains k then some kv.1 else acc
+      | _ => acc) acc := by
+  intro args
+  induction args with
+  | nil => intro acc; rfl
+  | cons kv rest ih =>
+    intro acc
+    obtain ⟨k', a⟩ := kv
+    cases a with
+    | bare v => simpa [groupsOf] using ih acc
+    | param value kwds => simpa [groupsOf] using ih acc
+    | group ms => simpa [groupsOf] using ih _
+
+theorem mem_groupsOf : ∀ (args : List (Name × DslArg Val)) (g : Name × List Name), g ∈ groupsOf args →
+    (g.1, DslArg.group g.2) ∈ args := by
+  intro args g hg
+  simp only [groupsOf, List.mem_filterMap] at hg
+  obtain ⟨kv, hkv, h⟩ := hg
+  obtain ⟨k, a⟩ := kv
+  cases a with
+  | bare v => simp at h
+  | param value kwds => simp at h
+  | group ms => simp only [Option.some.injEq] at h; subst h; exact hkv
+
+theorem plain_keys_sublist : ∀ (args : List (Name × DslArg Val)),
+    ((args.filterMap plainEntry).map (·.1)).Sublist (args.map (·.1)) := by
+  intro args
+  induction args with
+  | nil => simp
+  | cons kv rest ih =>
+    cases hp : plainEntry kv with
+    | none => simp only [List.filterMap_cons, hp, List.map_cons]; exact ih.cons _
+    | some e =>
+      have : e.1 = kv.1 := by
+        simp only [plainEntry, Option.map_eq_some_iff] at hp
+        obtain ⟨_, _, rfl⟩ := hp; rfl
+      simp only [List.filterMap_cons, hp, List.map_cons, this]; exact ih.cons_cons _
+
+theorem lookup_of_mem {α : Type} : ∀ (L : List (Name × α)) (k : Name) (v : α), (L.map (·.1)).Nodup → (k, v) ∈ L →
+    lookup k L = some v := by
+  intro L
+  induction L with
+  | nil => intro _ _ _ h; cases h
+  | cons x L ih =>
+    intro k v hnd h
+    simp only [List.map_cons, List.nodup_cons] at hnd
+    rcases List.mem_cons.1 h with rfl | hin
+    · simp [lookup]
+    · have : x.1 ≠ k := fun he => hnd.1 (he ▸ List.mem_map_of_mem hin)
+      simp only [lookup, this, ↓reduceIte]
+      exact ih k v hnd.2 hin
+
 end Frappy.Lemmas.ConfigDsl
